@@ -23,8 +23,11 @@ func c05SwitchCells() (cells []c05Cell) {
 }
 
 var c05CellTemplates = []c05Tpl{
-	c05T("for3", "plain", "", 4), c05T("for3", "plain", "", 5),
+	c05T("for3", "plain", "", 4), c05T("for3", "plain", "", 5), c05T("for3", "plain", "", 6),
 	c05Sw("sw.i.mixed", "sw", "i", "", c05LayMixed),
+	c05Sw("tsw.nobind.x.f", "tsw", "nobind", "x", c05TLayF), c05Sw("tsw.bind.x.g", "tsw", "bind", "x", c05TLayG),
+	c05Sw("tsw.bind.x.h", "tsw", "bind", "x", c05TLayH), c05Sw("tsw.nobind.x.e", "tsw", "nobind", "x", c05TLayE),
+	c05Sw("tsw.bind.x.d", "tsw", "bind", "x", c05TLayD),
 }
 
 func c05CellConfigs() []*c05Cfg {
@@ -44,13 +47,30 @@ func c05CellConfigs() []*c05Cfg {
 		{Name: "switch-evi", Expand: "kinds1", PT: [][]string{{"for3.plain.4"}, {"sw.evi.mid"}, {"as.x++"}}, PP: []int{1, 2, 2}},
 		// no tag / boolean tag
 		{Name: "switch-notag-bool", PT: [][]string{{"for3.plain.4"}, {"sw.none.a", "sw.bool.a", "sw.bool.b"}, {"as.x++"}}, PP: []int{1, 2, 2}},
+		// for ... 6 times { switch [v :=] c05any[x%6].(type) { <layout> }; x++ }: every dynamic type
+		// meets every layout, among them interface cases placed before concrete ones
+		{Name: "type-switch", PT: [][]string{{"for3.plain.6"}, {"tsw.bind.x.a", "tsw.bind.x.d", "tsw.bind.x.e", "tsw.nobind.x.e", "tsw.nobind.x.f",
+			"tsw.bind.x.g", "tsw.bind.x.h", "tsw.nobind.x.h"}, {"as.x++"}}, PP: []int{1, 2, 2}},
 		// for o := 0; o < 2; o++ { for <vars> range <container> { x++; if x < 2 { J }; ev } }
 		// J in break, continue, continue <inner|outer label>, mutation of the container
 		{Name: "range", PT: [][]string{{"for3.plain.2"}, rngs, {"as.x++"}, {"if.plain.x<2.1"}, {"brk", "cnt", "cntL", "mut"}, {"tr"}}, PP: []int{1, 2, 3, 3, 5, 3}},
 	}
+	// jumps that leave 2 to 6 scopes, each with variables of its own (a frame per scope in
+	// gomacro: Comp.jumpOut unwinds them, with unrolled cases for the first few counts):
+	// L: for ... { <scope> { <scope> { <scope> { <scope> { J } } } }; ev }   J leaves 1..5 of them
+	scopes := []string{"blk.shadow", "if.init.1", "for3.capt.2", "rng.kv.slice"}
+	deep := []c05Fam{
+		{Name: "deep-jump-3", PT: [][]string{{"for3.plain.2"}, scopes, scopes, {"brk", "cnt", "brkL", "cntL"}, {"tr"}}, PP: []int{1, 2, 3, 4, 2}},
+		{Name: "deep-jump-4", PT: [][]string{{"for3.plain.2"}, scopes, {"blk.shadow", "if.init.1"}, scopes, {"brk", "cnt", "brkL", "cntL"}, {"tr"}}, PP: []int{1, 2, 3, 4, 5, 2}},
+		{Name: "deep-jump-5", PT: [][]string{{"for3.plain.2"}, {"blk.shadow", "rng.kv.slice"}, {"if.init.1"}, {"blk.shadow", "for3.capt.2"}, {"blk.shadow", "if.init.1"},
+			{"brk", "cnt", "brkL", "cntL"}, {"tr"}}, PP: []int{1, 2, 3, 4, 5, 6, 2}},
+	}
 	return []*c05Cfg{{Name: "cells", MaxNodes: 6, MaxDepth: 3, Jumps: []string{"brk", "cnt", "cntL"}, Fams: fams, Workers: 4,
 		Tpls: c05Pick(all, append([]string{"for3.plain.2", "for3.plain.4", "for3.plain.5", "as.x++", "as.y+=2", "if.plain.x<2.1", "tr", "mut",
-			"sw.i.dense", "sw.i.mixed", "sw.evi.mid", "sw.none.a", "sw.bool.a", "sw.bool.b"}, rngs...)...)}}
+			"sw.i.dense", "sw.i.mixed", "sw.evi.mid", "sw.none.a", "sw.bool.a", "sw.bool.b", "for3.plain.6",
+			"tsw.bind.x.a", "tsw.bind.x.d", "tsw.bind.x.e", "tsw.nobind.x.e", "tsw.nobind.x.f", "tsw.bind.x.g", "tsw.bind.x.h", "tsw.nobind.x.h"}, rngs...)...)},
+		{Name: "deep", MaxNodes: 8, MaxDepth: 7, Jumps: []string{"brk", "cnt", "brkL", "cntL"}, Fams: deep, Workers: 4,
+			Tpls: c05Pick(all, "for3.plain.2", "for3.capt.2", "blk.shadow", "if.init.1", "rng.kv.slice", "tr")}}
 }
 
 // c05ExpandCells re-renders the switch families for every tag-kind cell.
